@@ -1,0 +1,150 @@
+//go:build verif
+
+// C13: revert switches to a kept revision in place and blocks the reverted-from ones. Contracts for the
+// deductive verifier in /verif (govc). Only compiled with -tags verif.
+
+package snapstate
+
+// ---- the revision before the current one ---------------------------------------------------------------
+
+// i is the last position of the current revision in the sequence
+//@ define currentAt(snapst *SnapState, i int) = 0 <= i && i < len(snapst.Sequence.Revisions) && snapst.Sequence.Revisions[i].Snap.Revision.N == snapst.Current.N && forall k int :: {snapst.Sequence.Revisions[k]} i < k && k < len(snapst.Sequence.Revisions) ==> snapst.Sequence.Revisions[k].Snap.Revision.N != snapst.Current.N
+
+//@ func (*SnapState).previousSideInfo
+//@   props C13
+//@   ensures [the-one-before-current] result != nil ==> exists i int :: 1 <= i && currentAt(snapst, i) && result == snapst.Sequence.Revisions[i-1].Snap
+//@   ensures [determined] forall i int :: {currentAt(snapst, i)} 1 <= i && currentAt(snapst, i) ==> result == snapst.Sequence.Revisions[i-1].Snap
+//@   ensures [none] (forall k int :: {snapst.Sequence.Revisions[k]} 1 <= k && k < len(snapst.Sequence.Revisions) ==> snapst.Sequence.Revisions[k].Snap.Revision.N != snapst.Current.N) ==> result == nil
+
+// ---- requesting a revert ---------------------------------------------------------------------------------
+
+//@ func Revert
+//@   props C13
+//@   guard call RevertToRevision: [same-request] arg0 == st && arg1 == name && arg4 == fromChange && arg3.RevertStatus == flags.RevertStatus
+//@   guard call RevertToRevision: [to-the-one-before-current] exists i int :: 1 <= i && currentAt(snapst, i) && arg2.N == snapst.Sequence.Revisions[i-1].Snap.Revision.N
+//@   ensures [only-through-revert-to] result1 == nil ==> called("RevertToRevision")
+//@   ensures [refused-without-effect] !called("RevertToRevision") ==> result0 == nil && result1 != nil && st.tasks == old(st.tasks) && st.changes == old(st.changes) && st.lastTaskId == old(st.lastTaskId) && st.lastChangeId == old(st.lastChangeId) && st.data == old(st.data)
+
+// reads snap.yaml (and the auxiliary store info) of one revision from disk into a fresh snap.Info
+//@ func readInfo
+//@   trusted
+//@   assigns nothing
+
+// looks the revision up in a record it loads itself (Get into a local) and reads its snap.yaml: writes nothing the
+// caller can see (frame assumed for callers, see props/C13.json)
+//@ func Info
+//@   props C13
+//@   assigns nothing
+
+//@ func RevertToRevision
+//@   props C13
+//@   guard call Info: [checked-first] arg0 == st && arg1 == name && arg2.N == rev.N && snapst.Current.N != rev.N && snapst.Active && 0 <= i && i < len(snapst.Sequence.Revisions) && snapst.Sequence.Revisions[i].Snap.Revision.N == rev.N
+//@   guard call doInstall: [same-request] arg0 == st && arg1 == snapst && arg5 == fromChange
+//@   guard call doInstall: [not-current] snapst.Current.N != rev.N
+//@   guard call doInstall: [enabled] snapst.Active
+//@   guard call doInstall: [kept] 0 <= i && i < len(snapst.Sequence.Revisions) && snapst.Sequence.Revisions[i].Snap.Revision.N == rev.N
+//@   guard call doInstall: [as-revert-of-kept-entry] arg2.Flags.Revert && arg2.SideInfo == snapst.Sequence.Revisions[i].Snap
+//@   guard call doInstall: [block-request-passed] arg2.Flags.RevertStatus == old(flags.RevertStatus)
+//@   ensures [only-through-doInstall] result1 == nil ==> called("doInstall") && called("Info")
+//@   ensures [refused-without-effect] !called("Info") ==> result0 == nil && result1 != nil && st.tasks == old(st.tasks) && st.changes == old(st.changes) && st.lastTaskId == old(st.lastTaskId) && st.lastChangeId == old(st.lastChangeId) && st.data == old(st.data)
+
+// ---- link-snap on a revert -----------------------------------------------------------------------------
+
+// names for the revision sequence as it was loaded from the state by snapSetupAndState
+//@ ghost loadedSeq(ref) slice
+//@ ghost loadedSeqElem(ref, int) ref
+
+// TaskSnapSetup + Get (both decode JSON kept in the state, outside the model); the two ghost functions only
+// give names to what was loaded
+//@ func snapSetupAndState
+//@   trusted
+//@   assigns nothing
+//@   ensures result2 == nil ==> result0 != nil && result1 != nil
+//@   ensures result2 == nil ==> result1.Sequence.Revisions == loadedSeq(result1) && forall k int :: {result1.Sequence.Revisions[k]} 0 <= k && k < len(result1.Sequence.Revisions) ==> result1.Sequence.Revisions[k] == loadedSeqElem(result1, k)
+// (C10, ghosts declared in c10_contracts_verif.go) names for the loaded current revision and refresh times
+//@   ensures result2 == nil ==> result1.Current.N == loadedCurrent(result1) && result1.RefreshInhibitedTime == loadedInhibitedTime(result1) && result1.LastRefreshTime == loadedLastRefresh(result1)
+
+// the backend hook for tests; the real one is empty
+//@ func (overlord/snapstate.managerBackend).Candidate
+//@   trusted
+//@   assigns nothing
+
+//@ define seqAsLoaded(snapst *SnapState) = snapst.Sequence.Revisions == loadedSeq(snapst) && forall k int :: {snapst.Sequence.Revisions[k]} 0 <= k && k < len(snapst.Sequence.Revisions) ==> snapst.Sequence.Revisions[k] == loadedSeqElem(snapst, k)
+
+//@ func (*SnapManager).doLinkSnap
+//@   props C13 C10
+//@   callpre assumed
+//@   guard append SnapSequence.Revisions: [new-revision-only] oldCandidateIndex < 0
+//@   guard store SnapSequence.Revisions: [new-revision-only] oldCandidateIndex < 0
+//@   guard store SnapState.Active: [revert-in-place] snapsup.Revert && oldCandidateIndex >= 0 ==> seqAsLoaded(snapst)
+//@   guard store SnapState.Active: [switched] obj == snapst && val && snapst.Current.N == snapsup.SideInfo.Revision.N
+//@   loop 0: invariant [refresh-only] !snapsup.Revert && oldCandidateIndex >= 0
+//@   guard mapstore SnapState.RevertStatus: [not-blocked-on-request] m == snapst.RevertStatus && key == oldCurrent.N && val == NotBlocked && snapsup.RevertStatus == NotBlocked
+//@   guard mapdelete SnapState.RevertStatus: [blocked-again] m == snapst.RevertStatus && (key == oldCurrent.N || key == cand.Snap.Revision.N)
+//@   guard store SnapState.RevertStatus: [map-created-only-when-missing] obj == snapst && oldval == nil && len(val) == 0
+//@   guard call snapstate.Set: [this-record-saved] arg0 == st && arg2 == snapst
+//@   guard store SnapState.RefreshInhibitedTime: [reverted-from-unblocked-iff-requested] snapsup.Revert ==> (snapsup.RevertStatus == NotBlocked) == (has(snapst.RevertStatus, oldCurrent.N) && snapst.RevertStatus[oldCurrent.N] == NotBlocked)
+//@   guard store SnapState.RefreshInhibitedTime: [refreshed-to-not-marked] !snapsup.Revert ==> !has(snapst.RevertStatus, cand.Snap.Revision.N)
+// ---- C10 (undo of link-snap restores what was there): clauses owned by contract-C10, kept in this block because a
+// function can have only one contract block; see props/C10.json
+//@   guard store SnapState.Active: [c10-current-saved-first] oldCurrent.N == loadedCurrent(snapst)
+//@   guard call (*SnapState).SetTrackingChannel: [c10-channel-saved-first] arg0 == snapst && snapst.TrackingChannel == oldChannel
+//@   guard store Flags.IgnoreValidation: [c10-ignore-validation-saved-first] oldval == oldIgnoreValidation
+//@   guard store Flags.TryMode: [c10-trymode-saved-first] oldval == oldTryMode
+//@   guard store Flags.DevMode: [c10-devmode-saved-first] oldval == oldDevMode
+//@   guard store Flags.JailMode: [c10-jailmode-saved-first] oldval == oldJailMode
+//@   guard store Flags.Classic: [c10-classic-saved-first] oldval == oldClassic
+//@   guard store SnapState.CohortKey: [c10-cohort-saved-first] obj == snapst && oldval == oldCohortKey
+//@   guard store SnapState.InstanceKey: [c10-refresh-times-saved-first] called("User") || (oldRefreshInhibitedTime == loadedInhibitedTime(snapst) && oldLastRefreshTime == loadedLastRefresh(snapst))
+//@   guard call User: [c10-refresh-times-saved-first] oldRefreshInhibitedTime == loadedInhibitedTime(snapst) && oldLastRefreshTime == loadedLastRefresh(snapst)
+//@   loop 0: invariant [c10-current-untouched] snapst.Current.N == loadedCurrent(snapst)
+//@   guard call (*Task).Set: [c10-saved-under-its-key] arg0 == t && (arg1 == "old-trymode" ==> arg2 == iface(oldTryMode)) && (arg1 == "old-devmode" ==> arg2 == iface(oldDevMode)) && (arg1 == "old-jailmode" ==> arg2 == iface(oldJailMode)) && (arg1 == "old-classic" ==> arg2 == iface(oldClassic)) && (arg1 == "old-ignore-validation" ==> arg2 == iface(oldIgnoreValidation)) && (arg1 == "old-channel" ==> arg2 == iface(oldChannel)) && (arg1 == "old-candidate-index" ==> arg2 == iface(oldCandidateIndex)) && (arg1 == "old-refresh-inhibited-time" ==> arg2 == iface(oldRefreshInhibitedTime)) && (arg1 == "old-cohort-key" ==> arg2 == iface(oldCohortKey)) && (arg1 == "old-last-refresh-time" ==> arg2 == iface(oldLastRefreshTime)) && (arg1 == "old-revs-before-cand" ==> arg2 == iface(oldRevsBeforeCand))
+//@   guard call (*Task).Set: [c10-current-saved-under-its-key] arg1 == "old-current" ==> arg2 == iface(oldCurrent)
+//@   guard call (*Task).Set: [c10-revert-status-saved-under-its-key] arg1 == "old-revert-status" ==> arg2 == iface(snapst.RevertStatus)
+//@   guard mapdelete SnapState.RevertStatus: [c10-revert-status-changed-only-when-saved] calledWith("(*Task).Set", 1, "old-revert-status")
+//@   guard call (*SnapState).LastIndex: [c10-candidate-position-in-loaded-sequence] arg0 == snapst && seqAsLoaded(snapst) && arg1.N == cand.Snap.Revision.N
+//@   guard mapstore SnapState.RevertStatus: [c10-revert-status-changed-only-when-saved] calledWith("(*Task).Set", 1, "old-revert-status")
+
+// ---- which revisions are reported to the store as blocked ------------------------------------------------
+
+//@ func specBlocked
+//@   pure
+
+//@ func specBlockedCount
+//@   pure
+//@   decreases to - from
+
+// every kept revision after the current one, in sequence order, except those a revert marked NotBlocked; nothing
+// (nil) when the current revision is the last one or is not in the sequence. Position of the revision at k in
+// the result: the number of blocked revisions between the current one and k.
+//@ func (*SnapState).Block
+//@   props C13
+//@   ensures [nil-when-absent] (forall k int :: {snapst.Sequence.Revisions[k]} 0 <= k && k < len(snapst.Sequence.Revisions) ==> snapst.Sequence.Revisions[k].Snap.Revision.N != snapst.Current.N) ==> result == nil
+//@   ensures [nil-when-last] currentAt(snapst, len(snapst.Sequence.Revisions) - 1) ==> result == nil
+//@   ensures [count] forall i int :: {currentAt(snapst, i)} currentAt(snapst, i) && i + 1 < len(snapst.Sequence.Revisions) ==> result != nil && len(result) == old(specBlockedCount(snapst, i + 1, len(snapst.Sequence.Revisions)))
+//@   ensures [in-order] forall i int, k int :: {currentAt(snapst, i), snapst.Sequence.Revisions[k]} currentAt(snapst, i) && i < k && k < len(snapst.Sequence.Revisions) && old(specBlocked(snapst, k)) ==> result[old(specBlockedCount(snapst, i + 1, k))].N == old(snapst.Sequence.Revisions[k].Snap.Revision.N)
+//@   ensures [positions] forall i int, k int :: {currentAt(snapst, i), snapst.Sequence.Revisions[k]} currentAt(snapst, i) && i < k && k < len(snapst.Sequence.Revisions) && old(specBlocked(snapst, k)) ==> 0 <= old(specBlockedCount(snapst, i + 1, k)) && old(specBlockedCount(snapst, i + 1, k)) < len(result)
+//@   ensures [lists-every-blocked-one] forall i int, k int :: {currentAt(snapst, i), snapst.Sequence.Revisions[k]} currentAt(snapst, i) && i < k && k < len(snapst.Sequence.Revisions) && old(snapst.RevertStatus[snapst.Sequence.Revisions[k].Snap.Revision.N]) != NotBlocked ==> exists j int :: 0 <= j && j < len(result) && result[j].N == old(snapst.Sequence.Revisions[k].Snap.Revision.N)
+//@   ensures [never-an-unblocked-one] forall j int :: {result[j]} 0 <= j && j < len(result) ==> snapst.RevertStatus[result[j].N] != NotBlocked
+//@   loop 0: invariant [never-an-unblocked-one] forall j int :: {out[j]} 0 <= j && j < len(out) ==> snapst.RevertStatus[out[j].N] != NotBlocked
+//@   loop 0: invariant [range] -1 <= idx0 && idx0 < len(ranged0) && 0 <= currentIndex && currentIndex + 1 < len(snapst.Sequence.Revisions) && ranged0 == snapst.Sequence.Revisions[currentIndex+1:] && currentAt(snapst, currentIndex) && out != nil
+//@   loop 0: invariant [count] len(out) == old(specBlockedCount(snapst, currentIndex + 1, currentIndex + 2 + idx0))
+//@   loop 0: invariant [positions] forall k int :: {snapst.Sequence.Revisions[k]} currentIndex < k && k <= currentIndex + 1 + idx0 && old(specBlocked(snapst, k)) ==> 0 <= old(specBlockedCount(snapst, currentIndex + 1, k)) && old(specBlockedCount(snapst, currentIndex + 1, k)) < len(out)
+//@   loop 0: invariant [in-order] forall k int :: {snapst.Sequence.Revisions[k]} currentIndex < k && k <= currentIndex + 1 + idx0 && old(specBlocked(snapst, k)) ==> out[old(specBlockedCount(snapst, currentIndex + 1, k))].N == old(snapst.Sequence.Revisions[k].Snap.Revision.N)
+//@   loop 0: invariant [entry-values] forall k int :: {snapst.Sequence.Revisions[k]} 0 <= k && k < len(snapst.Sequence.Revisions) ==> snapst.Sequence.Revisions[k].Snap.Revision.N == old(snapst.Sequence.Revisions[k].Snap.Revision.N)
+
+// the revision at position k is not exempted from blocking
+func specBlocked(snapst *SnapState, k int) bool {
+	return snapst.RevertStatus[snapst.Sequence.Revisions[k].Snap.Revision.N] != NotBlocked
+}
+
+// number of blocked revisions at positions from .. to-1
+func specBlockedCount(snapst *SnapState, from, to int) int {
+	if to <= from {
+		return 0
+	}
+	if specBlocked(snapst, to-1) {
+		return specBlockedCount(snapst, from, to-1) + 1
+	}
+	return specBlockedCount(snapst, from, to-1)
+}
